@@ -61,6 +61,21 @@ CLAIMS = {
              "The lora_race script family raises events at chosen transfer indices of a running handler on the real driver.",
         technique="Lean 4 program-shape theorems + W1C chip lemma + event injection between SPI transfers",
         design="7 C07"),
+    'C09': dict(
+        text="Proof for 36 setter cases, correspondence for the rest. For each configuration function (FSK/OOK: crc, encoding, packet format, "
+             "address filtering, preamble type/detector, sync-independent RxConfig fields (collision restart, AFC auto, trigger), RSSI config, "
+             "bandwidths, temperature monitor, bit rate, deviation, data shaping; OOK demodulator modes; LoRa: sync word, FIFO bases, LDRO "
+             "override, implicit/explicit header, hop period; both: preamble length, LNA gain/boost, OCP, PA configuration, carrier frequency) a "
+             "theorem C09_<function> states that, for every argument, handle and prior register content, the call returns OK, leaves the stated "
+             "handle and the chip equal to the prior chip with exactly a declared list of bit fields (register, field mask, datasheet "
+             "encoding) updated. C09_frame/setFields_frame derive from any such list that every bit outside the listed fields of every "
+             "register, the other page, the LoRa buffer and the FIFO are unchanged; C09_enumerators_fit_their_fields decides in the kernel, on "
+             "the regenerated enumerator lists, that every documented argument lies inside its field; C09_fields_sharing_a_register_are_disjoint. "
+             "Bandwidth/spreading factor are C13, set_opmod is C15, the beacon is C14. set_syncword (burst write), set_ppm_offset and "
+             "rx_calibrate are covered by the correspondence (register file of the real driver = register file of the model after every call, "
+             "all 256 prior values of each touched register) only.",
+        technique="Lean 4 symbolic execution of each setter over a register-file view + generic frame theorem + kernel-decided enumerator facts + exhaustive prior-value scripts",
+        design="7 C09"),
     'C10': dict(
         text="Proof. Theorems Sx.C10_gated (each of the 39 modulation-specific functions, called while another modulation is active, IS the "
              "program that returns INVALID_STATE at once: no request at all, handle untouched, for every argument and handle), "
